@@ -135,11 +135,22 @@ func NewEnv(withServer bool) (*Env, error) {
 }
 
 func (e *Env) startServer() error {
-	port, err := freePort()
-	if err != nil {
-		return err
+	// the port found free can be taken (by another environment of this or of another process)
+	// before the server binds it: retry on another one
+	var last error
+	for try := 0; try < 8; try++ {
+		port, err := freePort()
+		if err != nil {
+			return err
+		}
+		if last = e.startServerOn(port); last == nil {
+			return nil
+		}
+		if e.cancel != nil {
+			e.cancel()
+		}
 	}
-	return e.startServerOn(port)
+	return last
 }
 
 func (e *Env) startServerOn(port int) error {
@@ -165,6 +176,14 @@ func (e *Env) startServerOn(port int) error {
 		return fmt.Errorf("grpc service failed to start: %v", err)
 	case <-time.After(10 * time.Second):
 		return fmt.Errorf("grpc service start timeout")
+	}
+	// the service closes [ready] also when it could NOT open its port (and then returns the
+	// error): without this look a client would be connected to whoever does listen on that
+	// port -- another environment's server, i.e. two histories on one database
+	select {
+	case err := <-e.svcDone:
+		return fmt.Errorf("grpc service failed to start: %v", err)
+	case <-time.After(40 * time.Millisecond):
 	}
 	conn, err := grpc.NewClient(fmt.Sprintf("127.0.0.1:%d", port),
 		grpc.WithTransportCredentials(insecure.NewCredentials()))
